@@ -61,3 +61,10 @@ Fixpoint verdicts (maxseq : N) (s : win) (xs : list N) : list (bool * bool) :=
         let '(s1, isl) := accept maxseq s x in (true, isl) :: verdicts maxseq s1 xs'
       else (false, false) :: verdicts maxseq s xs'
   end.
+
+(* Export and resume AS CODED (state.go / resume.go): the serialised state carries nothing about the
+   receive side, so the resumed connection starts from an empty window for the same epoch and keys.
+   [xs] arrive at the exporting connection, [ys] at the resumed one. *)
+Definition run_resumed (maxseq : N) (W : nat) (xs ys : list N) : list N * list N :=
+  (snd (run maxseq (win_init W) xs), snd (run maxseq (win_init W) ys)).
+
